@@ -44,8 +44,8 @@ P['C13'] = {
     'assumptions': ['spec_byte is tied to bits2byte through the Kani group (all 256 vectors); the clauses unit hdlc assumes of find_right_crc are proved of its body in unit crc'],
 }
 P['C14'] = {
-    'units': ['kani:codecs', 'fsrc', 'tcp', 'au', 'auenc', 'sigmf', 'filert', 'aurt'],
-    'technique': 'Kani/CBMC loop-free full-domain proofs of Sample::{serialize,parse,size}; Verus stream-function invariants on FileSource / TcpSource / SigMFSource::work against a reader that may return any number of bytes, and on AuEncode / AuDecode::work',
+    'units': ['kani:codecs', 'fsrc', 'fsink', 'tcp', 'au', 'auenc', 'sigmf', 'filert', 'aurt'],
+    'technique': 'Verus: the open-mode table and the consumed-means-on-disk invariant of FileSink (unit fsink, shared with C17: the file IS the serialisation of the consumed stream); Kani/CBMC loop-free full-domain proofs of Sample::{serialize,parse,size}; Verus stream-function invariants on FileSource / TcpSource / SigMFSource::work against a reader that may return any number of bytes, and on AuEncode / AuDecode::work',
     'level_text': 'Codecs: parse(serialize(x)) is bit-identical to x for every bit pattern (NaN payloads included), serialize(x).len() == size(), parse never errs on size() bytes and serialize(parse(d)) == d for every byte pattern; Complex wire order I then Q, little endian (Kani, complete). Byte-stream sources: FileSource::work, TcpSource::work and SigMFSource::work reassemble exactly the samples of the bytes for EVERY segmentation of the byte stream (read() may return any 1..=len bytes, incl. splits inside a sample); file sources repeated `count` times (Verus, no bound). File round trip as a theorem: parse_seq(ser_all(xs)) == xs for every sample sequence (and a file cut anywhere parses to a prefix), which links "the file is base ++ ser_all(consumed)" (unit fsink, C17) to "the source emits parse_seq(file)" (units fsrc, sigmf). AU: AuEncode::work emits the header then exactly two big-endian bytes per consumed sample; AuDecode::work the header state machine then one sample per two payload bytes; composed (theorem_au_round_trip): decoding the encoder\'s payload gives exactly one sample per input sample, each the decoder\'s value of the quantised input. SigMF metadata / archive member lookup are NOT decided.',
     'level_note': 'Loop-free harnesses over the full input domain are complete proofs; the two round-trip theorems are spec-level (they compose what the units prove of the real sink / source / encoder / decoder) and use the per-sample codec facts of the Kani group as one axiom. Quantisation and de-quantisation values are floating point (uninterpreted).',
     'not_covered': ['SigMFSource constructors: tar archive member lookup, metadata parsing (tar, serde_json)', 'the AU header as the decoder sees it when it comes from the encoder (the decoder unit proves the header state machine for every header; that the encoder\'s 28 bytes are an accepted one is checked by the bounded units only)', 'PduWriter', 'Sample for String (TODO in source)'],
@@ -91,7 +91,7 @@ P['C09'] = {
     'not_covered': _NOT_COVERED_BLOCKS + ['graph.rs / mtgraph.rs handling of the verdicts'], 'assumptions': _BLOCK_ASSUME,
 }
 P['C10'] = {
-    'units': list(_BU) + _FIR + ['kernels', 'kani:lfsr', 'bx:rtlsdr', 'bx:totext'],
+    'units': list(_BU) + _FIR + ['kernels', 'kani:lfsr', 'bx:rtlsdr', 'bx:totext', 'bx:kernels'],
     'technique': 'Verus stream-function invariants (spec function F per block written from its documentation) + Kani full-domain proofs of the LFSR steps',
     'level_text': 'Deductive proof for a stated subset: Skip, Delay, VectorSource, VecToStream, ConstantSource, NullSink, RationalResampler (documented keep/repeat rule), FirFilter (counts; values float), RtlSdrDecode (one I/Q per byte pair), StreamToPdu (burst rule), Hilbert / FftStream / FftFilter (framing; kernels uninterpreted) emit exactly F(input) with exact counts; the per-sample kernels of NrziDecode, Tee, the two correlators and BurstTagger equal their documented rule; descrambler and IL2P LFSR steps equal their recurrences for all register/mask/seed values (Kani).',
     'level_note': 'Subset only; the generated per-sample loop around the kernels, the text formatter and float values are not decided.',
